@@ -214,13 +214,27 @@ func (x *Exec) binaryCall(fr *Frame, st *State, key string, args []V, rt types.T
 		return fmt.Sprintf("(mod (div %s %s) 256)", v, pow2(8*k).String())
 	}
 	x.trust("encoding/binary fixed-width helpers (PutUintN / AppendUintN / UintN) modelled exactly")
+	// bytesOf names the bytes of v and hands the solver the (true) arithmetic fact that they
+	// recombine to v — an instance of the split/join lemma it would otherwise have to
+	// rediscover through div/mod reasoning.
+	bytesOf := func(v string) []string {
+		var bs, parts []string
+		for i := 0; i < width; i++ {
+			k := i
+			if big {
+				k = width - 1 - i
+			}
+			b := x.define("byte", "Int", byteOf(v, i))
+			bs = append(bs, b)
+			parts = append(parts, "(* "+b+" "+pow2(8*k).String()+")")
+			x.assume("true", "(and (<= 0 "+b+") (<= "+b+" 255))")
+		}
+		x.assume("true", "(= (+ "+strings.Join(parts, " ")+") "+v+")")
+		return bs
+	}
 	switch {
 	case strings.HasPrefix(meth, "AppendUint"):
-		var elems []string
-		for i := 0; i < width; i++ {
-			elems = append(elems, byteOf(args[2].S, i))
-		}
-		return x.appendElems(st, args[1], elems), true
+		return x.appendElems(st, args[1], bytesOf(args[2].S)), true
 	case strings.HasPrefix(meth, "PutUint"):
 		b := args[1]
 		x.check(fr, st, pos, "index", fmt.Sprintf("(>= (s_len %s) %d)", b.S, width))
@@ -228,8 +242,8 @@ func (x *Exec) binaryCall(fr *Frame, st *State, key string, args []V, rt types.T
 		keyS := heapKeySlice(et)
 		sarr := x.heapGet(st, keyS, et)
 		row := "(select " + sarr + " (s_base " + b.S + "))"
-		for i := 0; i < width; i++ {
-			row = fmt.Sprintf("(store %s (+ (s_off %s) %d) %s)", row, b.S, i, byteOf(args[2].S, i))
+		for i, bt := range bytesOf(args[2].S) {
+			row = fmt.Sprintf("(store %s (+ (s_off %s) %d) %s)", row, b.S, i, bt)
 		}
 		x.heapSet(st, keyS, et, "(store "+sarr+" (s_base "+b.S+") "+row+")")
 		return V{T: rt}, true
